@@ -163,7 +163,8 @@ theorem mem_applicableIn {l : List LChain} {d : Nat} {c : Chain} :
     terminated without a client certificate, and under STRICT **every** selected chain terminates mutual
     TLS (no plaintext chain, no TLS pass-through).  `_hown` restricts the CLAIM, the proof does not need it: the
     real listener has the blackhole chain for its own port 15006, which the model leaves out
-    (`virtualInboundPort`). -/
+    (`virtualInboundPort`), and connections to the proxy's other own ports never reach this listener
+    (`proxyOwnPorts`). -/
 theorem inbound_listener_enforces_model {ps : List PA} (hu : UniqueKeys ps) (hz : NoPortZero ps) (root : String)
     (w : Workload) (hs : w.svcNs = []) (svcPorts : List SvcPort) (declared : List Nat) (d : Nat) (hd : d > 0)
     (hU : NoUserTLSFor svcPorts d) (hD : DeclaredHaveConfigs svcPorts declared) :
@@ -430,7 +431,7 @@ theorem inbound_listener_enforces_model {ps : List PA} (hu : UniqueKeys ps) (hz 
 /-- `inbound_listener_enforces_model` as a claim about the real listener: not for the listener's own port. -/
 theorem inbound_listener_enforces {ps : List PA} (hu : UniqueKeys ps) (hz : NoPortZero ps) (root : String)
     (w : Workload) (hs : w.svcNs = []) (svcPorts : List SvcPort) (declared : List Nat) (d : Nat) (hd : d > 0)
-    (_hown : d ≠ virtualInboundPort) (hU : NoUserTLSFor svcPorts d) (hD : DeclaredHaveConfigs svcPorts declared) :
+    (_hown : d ∉ proxyOwnPorts) (hU : NoUserTLSFor svcPorts d) (hD : DeclaredHaveConfigs svcPorts declared) :
     let cs := applicable (inboundChains root ps w svcPorts declared) d
     (cs.any Chain.acceptsPlaintext = true ↔ effectiveMode ps root w d ≠ .strict) ∧
     (cs.any Chain.terminatesMTLS = true ↔ effectiveMode ps root w d ≠ .disable) ∧
